@@ -589,3 +589,30 @@ func isNilNode(n ast.Node) bool {
 	v := reflect.ValueOf(n)
 	return v.Kind() == reflect.Ptr && v.IsNil()
 }
+
+// ReachableNode: some path from 'from' reaches a node satisfying pred without first passing a node satisfying stop.
+func (g *Graph) ReachableNode(from Point, pred, stop func(ast.Node) bool) bool {
+	seen := map[*cfg.Block]bool{}
+	var walk func(b *cfg.Block, start int) bool
+	walk = func(b *cfg.Block, start int) bool {
+		for i := start; i < len(b.Nodes); i++ {
+			if pred(b.Nodes[i]) {
+				return true
+			}
+			if stop != nil && stop(b.Nodes[i]) {
+				return false
+			}
+		}
+		for _, s := range b.Succs {
+			if seen[s] {
+				continue
+			}
+			seen[s] = true
+			if walk(s, 0) {
+				return true
+			}
+		}
+		return false
+	}
+	return walk(from.B, from.I)
+}
